@@ -3031,7 +3031,6 @@ private:
         }
 
         ps.current_term_idx = res.term_idx;
-        ps.current_end_it = ps.current_it + res.len;
 
         if (ps.current_term_idx == uninitialized16)
         {
@@ -3040,6 +3039,7 @@ private:
         }
         else
         {
+            ps.current_end_it = ps.current_it + res.len;
             trace_recognized_term(ps);
         }
 
